@@ -3,14 +3,15 @@
 # Prints a JSON line with the verdicts; copies the artefacts to /verif/seeded/<Cxx>-<A|B>/.
 set -u
 ID=$1; V=$2
-SRC=/tmp/seed/$ID/out/$V
+ROOT=${SEEDROOT:-/tmp/seed}
+SRC=$ROOT/$ID/out/$V
 W=/tmp/seedeval/$ID-$V
 export GOFLAGS=-mod=mod GOPROXY=off GOSUMDB=off GOTOOLCHAIN=local
 rm -rf "$W" /tmp/seedeval/demo-$ID-$V /tmp/seedeval/verif-$ID-$V; mkdir -p /tmp/seedeval
 git -C /repo worktree add -q --detach "$W" HEAD || exit 2
 cp -r "$SRC/demo" /tmp/seedeval/demo-$ID-$V
 D=/tmp/seedeval/demo-$ID-$V
-sed -i "s|/tmp/seed/$ID/v2|$W/v2|g" $D/go.mod 2>/dev/null
+sed -i "s|$ROOT/$ID/v2|$W/v2|g" $D/go.mod 2>/dev/null
 RACE=""; [ -d $D/bin ] && { export PATH=$D/bin:$PATH; chmod +x $D/bin/* 2>/dev/null; RACE="-race"; }
 rundemo() {
   if [ ! -f $D/go.mod ]; then
@@ -32,10 +33,10 @@ for c in C01 C02 C03 C04 C05 C06 C07 C08 C09 C10 C11 C12 C13 C14 C15 C16 C17 C18
 done
 git -C /repo worktree remove --force "$W"; rm -rf /tmp/seedeval/verif-$ID-$V
 mkdir -p /verif/seeded/$ID-$V; cp $SRC/patch.diff /verif/seeded/$ID-$V/; rm -rf /verif/seeded/$ID-$V/demo; cp -r $SRC/demo /verif/seeded/$ID-$V/demo
-python3 - "$ID" "$V" "$clean_rc" "$mut_rc" "$build" "$base" "$caught" <<'PY'
+python3 - "$ID" "$V" "$clean_rc" "$mut_rc" "$build" "$base" "$caught" "$ROOT" <<'PY'
 import json,sys
-ID,V,clean,mut,build,base,caught=sys.argv[1:8]
-meta=json.load(open('/tmp/seed/%s/out/%s/meta.json'%(ID,V)))
+ID,V,clean,mut,build,base,caught,ROOT=sys.argv[1:9]
+meta=json.load(open('%s/%s/out/%s/meta.json'%(ROOT,ID,V)))
 meta.update({"verified_by_me":{"demo_exit_on_unchanged_tree":int(clean),"demo_exit_with_change":int(mut),"build_output":build,"baseline":base,
   "what_i_ran":"tools/seed_eval.sh %s %s: fresh scratch worktree of /repo HEAD under /tmp/seedeval; demo on clean tree; git apply patch; go build; baseline.sh; demo again; all 20 checks with --repo <worktree>; worktree removed"%(ID,V)},
   "caught_by":[l for l in caught.replace('\\n','\n').split('\n') if l.strip()]})
